@@ -1,13 +1,231 @@
 /-
-  Driver command `codec`: see DESIGN.md.
+  Driver command `codec` (property C11): replays the harness's `codec-*` case blocks through the
+  model of bincode / base64 / `from_str` / the v1 parser and runs the C11 monitors on what the
+  implementation did.
+
+  Output per case:  `case <id> <kind> ok|DIFF tags=<t1,t2,..>`, `sig <id> <features>`,
+  and `mon C11 FAIL <id> <reason>` when a monitor is false on the implementation's behaviour.
 -/
 import Driver.Parse
+import MbVerif.Spec.C11
 
 namespace Driver.CodecRun
 open Mb Driver
+open Mb.Codec (Bytes)
+
+def field (c : CaseBlock) (k : String) : Option (List String) :=
+  (c.header.find? (fun w => w.head? == some k)).map (fun w => w.drop 1)
+
+def hexField (c : CaseBlock) (k : String) : Option Bytes :=
+  match field c k with
+  | some [h] => hexBytes h
+  | some [] => some []
+  | _ => none
+
+def kindHead (c : CaseBlock) : String := (c.kind.splitOn " ").headD ""
+def kindTag (c : CaseBlock) : String := ((c.kind.splitOn " ").drop 1).headD ""
+
+def strBytes (s : String) : Bytes := s.toUTF8.toList
+
+def bucket (n : Nat) : String :=
+  if n ≤ 1 then "n1" else if n ≤ 10 then "n10" else if n ≤ 100 then "n100"
+  else if n ≤ 1000 then "n1000" else "n4000"
+
+def distFeat (d : Dist) : List String :=
+  let t := match d.dist with
+    | .uniform .. => "dU" | .normal .. => "dN" | .skewNormal .. => "dSN" | .logNormal .. => "dLN"
+    | .binomial .. => "dBi" | .geometric .. => "dGe" | .pareto .. => "dPa" | .poisson .. => "dPo"
+    | .weibull .. => "dW" | .gamma .. => "dGa" | .beta .. => "dBe"
+  let nan (x : F64) : Bool := Fp.isNan (Fp.val64 x)
+  if nan d.start || nan d.max then [t, "nan"] else [t]
+
+def optDistFeat : Option Dist → List String
+  | none => []
+  | some d => "lim" :: distFeat d
+
+def actionFeat : Action → List String
+  | .cancel _ => ["aC"]
+  | .sendPadding _ _ to lim => "aP" :: distFeat to ++ optDistFeat lim
+  | .blockOutgoing _ _ to du lim => "aB" :: distFeat to ++ distFeat du ++ optDistFeat lim
+  | .updateTimer _ du lim => "aT" :: distFeat du ++ optDistFeat lim
+
+def counterFeat (c : Counter) : List String :=
+  (if c.copy then ["copy"] else []) ++ (match c.dist with | none => ["cnt"] | some d => "cntD" :: distFeat d)
+
+def dedup (l : List String) : List String :=
+  l.foldl (fun acc x => if acc.contains x then acc else acc ++ [x]) []
+
+def machineFeat (m : Machine) : List String :=
+  let per := m.states.foldl (fun acc s =>
+    let a := match s.action with | none => [] | some a => actionFeat a
+    let ca := match s.counterA with | none => [] | some c => counterFeat c
+    let cb := match s.counterB with | none => [] | some c => counterFeat c
+    let tv := s.transitions.foldl (fun acc v => match v with
+      | none => acc
+      | some ts =>
+        let acc := if ts.length > 250 then "longvec" :: acc else acc
+        let acc := if ts.any (fun t => t.target == STATE_END) then "tEnd" :: acc else acc
+        if ts.any (fun t => t.target == STATE_SIGNAL) then "tSig" :: acc else acc) []
+    dedup (acc ++ a ++ ca ++ cb ++ tv)) []
+  let big := if m.allowedPaddingPackets ≥ 2 ^ 32 || m.allowedBlockedMicrosec ≥ 2 ^ 32 then ["u64big"] else []
+  bucket m.states.length :: (per ++ big)
+
+def errName : MStr.Err → String
+  | .tooShort => "short" | .notAscii => "ascii" | .version => "version" | .base64 => "b64"
+  | .zlib => "zlib" | .bincode => "bincode" | .invalid => "invalid" | .panic => "panic"
+
+def report (c : CaseBlock) (diffs : List String) (sig : List String) (mons : List String) : IO Unit := do
+  if diffs.isEmpty then IO.println s!"case {c.id} {kindHead c} ok"
+  else IO.println s!"case {c.id} {kindHead c} DIFF tags={String.intercalate "," (dedup diffs)}"
+  IO.println s!"sig {c.id} {String.intercalate "," (dedup sig)}"
+  for m in mons do IO.println s!"mon C11 FAIL {c.id} {m}"
+
+/-- `valid` cases: bincode correspondence, base64 correspondence, zlib contract on the real
+    path, round-trip monitor on the implementation -/
+def runValid (c : CaseBlock) : IO Unit := do
+  let some mb := hexField c "m" | IO.println s!"case {c.id} {kindHead c} PARSE m"
+  let mut diffs : List String := []
+  let mut sig : List String := []
+  let mut mons : List String := []
+  match Codec.decodeMachine mb with
+  | none => report c ["decode"] ["undecodable"] []
+  | some m =>
+    if Codec.encMachine m != mb then diffs := diffs ++ ["enc"]
+    if !Codec.WFm m then diffs := diffs ++ ["wf"]
+    let implValid := field c "val" == some ["ok"]
+    if Validate.machine m != implValid then diffs := diffs ++ ["validate"]
+    sig := machineFeat m
+    match field c "ser" with
+    | some ("panic" :: _) =>
+      -- outside the property's hypothesis (encoding above the limit); the model must predict it
+      if !MStr.serializePanics m then diffs := diffs ++ ["serpanic"]
+      sig := sig ++ ["oversize"]
+    | some ["ok", str] =>
+      if MStr.serializePanics m then diffs := diffs ++ ["serpanic"]
+      let sb := strBytes str
+      let some z := hexField c "z" | report c (diffs ++ ["noz"]) sig mons
+      if sb != MStr.versionStr ++ B64.enc z then diffs := diffs ++ ["b64enc"]
+      if B64.dec (sb.drop 2) != some z then diffs := diffs ++ ["b64dec"]
+      if z.length > 32768 then sig := sig ++ ["z32k"]
+      -- what the single read returned on the real path
+      let (raw, contract) : Option Bytes × Bool :=
+        match field c "ro" with
+        | some ["ok", _, "eq"] => (some mb, true)
+        | some ["ok", _, "ne"] => (hexField c "rob", false)
+        | _ => (none, false)
+      sig := sig ++ [if contract then "contract" else "contract-broken"]
+      let Z : MStr.Zlib := { deflate := fun _ => z, readOnce := fun _ => raw }
+      let model := MStr.fromStr Z sb
+      let rt := (field c "rt").getD []
+      let implOk := rt.head? == some "ok"
+      match model with
+      | .ok m' =>
+        if !implOk then diffs := diffs ++ ["rt-model-ok-impl-" ++ rt.headD "none"]
+        if contract && m' != m then diffs := diffs ++ ["rt-model-machine"]
+      | .error e =>
+        if implOk then diffs := diffs ++ ["rt-impl-ok-model-" ++ errName e]
+        if contract && implValid then diffs := diffs ++ ["rt-theorem"]   -- contradicts `fromStr_serialize`
+      let obs : C11.RtObs := {
+        parsed := implOk,
+        sameString := field c "rs" == some ["same"],
+        sameName := field c "nm" == some ["same"],
+        sameMachine := field c "eq" == some ["same"] }
+      if implValid && !C11.monRoundTrip obs then
+        let readInfo := match field c "ro" with
+          | some ["ok", n, _] => s!"single read returned {n} of {mb.length} bytes"
+          | _ => "single read failed"
+        mons := mons ++ [s!"roundtrip: valid machine, {m.states.length} states, string {sb.length} bytes, compressed {z.length} bytes; from_str(serialize(m)) -> {String.intercalate " " rt}; {readInfo}"]
+    | _ => diffs := diffs ++ ["noser"]
+    report c diffs sig mons
+
+/-- `hostile` / `bomb` cases: stage-by-stage agreement of `from_str` with the model, monitor on
+    what was accepted -/
+def runHostile (c : CaseBlock) : IO Unit := do
+  let some sb := hexField c "s" | IO.println s!"case {c.id} {kindHead c} PARSE s"
+  let mut diffs : List String := []
+  let mut mons : List String := []
+  let st := ((field c "st").getD []).headD "none"
+  let z := hexField c "z"
+  let raw := hexField c "raw"
+  let Z : MStr.Zlib := { deflate := fun x => x, readOnce := fun x => if some x == z then raw else none }
+  let model := MStr.fromStr Z sb
+  let mstage := match model with | .ok _ => "ok" | .error e => errName e
+  if mstage != st then diffs := diffs ++ [s!"stage-model-{mstage}-impl-{st}"]
+  -- base64 agreement whenever the checks before it passed
+  if st != "short" && st != "ascii" && st != "version" && st != "panic" then
+    let md := B64.dec (sb.drop 2)
+    if md != z then diffs := diffs ++ ["b64dec"]
+  if (field c "replica-mismatch").isSome then diffs := diffs ++ ["replica"]
+  let r := (field c "r").getD []
+  let mut obs : C11.ParseObs := .rejected
+  match r with
+  | ["ok", h] =>
+    let accepted := (hexBytes h).bind Codec.decodeMachine
+    obs := .accepted accepted
+    match model with
+    | .ok m =>
+      if some (Codec.encMachine m) != hexBytes h then diffs := diffs ++ ["accepted-machine"]
+    | .error e => diffs := diffs ++ [s!"impl-accepts-model-{errName e}"]
+  | "err" :: _ =>
+    match model with
+    | .ok _ => diffs := diffs ++ ["model-accepts-impl-rejects"]
+    | .error _ => pure ()
+  | "panic" :: msg =>
+    obs := .panicked
+    mons := mons ++ [s!"from_str panicked: {String.intercalate " " msg}"]
+  | _ => diffs := diffs ++ ["nor"]
+  if !C11.monParse obs && obs matches .accepted _ then
+    mons := mons ++ ["from_str accepted a machine that fails validation"]
+  let acc := match obs with | .accepted _ => "accept" | .rejected => "reject" | .panicked => "panic"
+  report c diffs [kindTag c, st, acc] mons
+
+/-- `v1` cases: the legacy parser -/
+def runV1 (c : CaseBlock) : IO Unit := do
+  let some sb := hexField c "s" | IO.println s!"case {c.id} {kindHead c} PARSE s"
+  let mut diffs : List String := []
+  let mut mons : List String := []
+  let st := ((field c "st").getD []).headD "none"
+  let hexOk := (V1.hexDec sb).isSome
+  if hexOk != (st != "hex") then diffs := diffs ++ ["hex"]
+  let r := (field c "r").getD []
+  let mut obs : C11.ParseObs := .rejected
+  let mut mres := "none"
+  match hexField c "raw" with
+  | some raw =>
+    let model := V1.parseV1Machine raw
+    mres := match model with | .ok _ => "ok" | .error .err => "err" | .error (.fault _) => "fault"
+    match r, model with
+    | ["ok", h], .ok m =>
+      if some (Codec.encMachine m) != hexBytes h then diffs := diffs ++ ["accepted-machine"]
+    | "err" :: _, .error .err => pure ()
+    | "panic" :: _, .error (.fault _) => pure ()
+    | _, _ => diffs := diffs ++ [s!"result-model-{mres}-impl-{r.headD "none"}"]
+  | none =>
+    if st == "ok" then diffs := diffs ++ ["noraw"]
+    if r.head? != some "err" && r.head? != some "panic" then diffs := diffs ++ ["early-stage-accept"]
+  match r with
+  | ["ok", h] =>
+    obs := .accepted ((hexBytes h).bind Codec.decodeMachine)
+    match field c "v2" with
+    | some ["ok"] => pure ()
+    | other => mons := mons ++ [s!"machine accepted by parse_v1_machine does not round-trip in the current format: {other}"]
+  | "panic" :: msg =>
+    obs := .panicked
+    mons := mons ++ [s!"parse_v1_machine panicked: {String.intercalate " " msg}"]
+  | _ => pure ()
+  if !C11.monParse obs && obs matches .accepted _ then
+    mons := mons ++ ["parse_v1_machine accepted a machine that fails validation"]
+  let acc := match obs with | .accepted _ => "accept" | .rejected => "reject" | .panicked => "panic"
+  report c diffs ["v1", kindTag c, st, acc] mons
 
 /-- run the `codec` command over the parsed case blocks; `args` are the extra command-line words -/
-def run (_cases : List CaseBlock) (_args : List String) : IO Unit := do
-  IO.println "codec: not implemented"
+def run (cases : List CaseBlock) (_args : List String) : IO Unit := do
+  for c in cases do
+    match kindHead c with
+    | "valid" => runValid c
+    | "hostile" => runHostile c
+    | "bomb" => runHostile c
+    | "v1" => runV1 c
+    | k => IO.println s!"case {c.id} {k} PARSE unknown-kind"
 
 end Driver.CodecRun
